@@ -57,8 +57,10 @@ function genRequest (rng, files) {
 }
 
 function panicSig (p) {
-  const loc = String(p.location || '').replace(/:\d+:\d+$/, '').replace(/^.*\/(src\/.*)$/, '$1').replace(/^\/root\/\.cargo\/registry\/src\/[^/]+\//, '')
-  return `panic:${loc}:${clip(String(p.message).replace(/\d+/g, 'N'), 80)}`
+  let loc = String(p.location || '').replace(/:\d+:\d+$/, '')
+  loc = loc.replace(/^\/root\/\.cargo\/registry\/src\/[^/]+\//, '').replace(/^\/repo\//, '')
+  const msg = String(p.message).split(' of `')[0].replace(/\d+/g, 'N').replace(/\s+/g, ' ').slice(0, 90)
+  return `panic:${loc}:${msg}`
 }
 
 function classify (resp) {
@@ -83,7 +85,17 @@ function runBatch (reqs, hopts) {
     idx.push(lines.length)
     lines.push({ op: 'rewrite', rw: cfgIds.get(key), code: r.code, file: r.file, reader: r.reader })
   }
-  const rs = h.run(lines)
+  // sub-batches keep the response stream of one process well below node's string limit
+  const rs = []
+  const news = lines.filter(l => l.op === 'new')
+  const rewrites = lines.filter(l => l.op !== 'new')
+  const map = new Map()
+  for (let i = 0; i < rewrites.length; i += 300) {
+    const part = rewrites.slice(i, i + 300)
+    const out = h.run(news.concat(part))
+    part.forEach((q, j) => map.set(q, out[news.length + j]))
+  }
+  lines.forEach((l, i) => { rs[i] = l.op === 'new' ? { ok: {} } : map.get(l) })
   return { responses: idx.map(i => rs[i]), h }
 }
 
